@@ -224,7 +224,8 @@ Definition xsd_dur (t : str) (v : Z) : Prop :=
 Definition dur_lexical (t : str) : bool := is_some (dur_decode t).
 
 (* ------------------------------------------------------------------ Date / DateTime
-   datetime record; tz = None (naive) or Some offset in seconds, |offset| < 86400 (whole-second offsets) *)
+   datetime record; tz = None (naive) or Some offset in MICROSECONDS, |offset| < 24 h.  [valid_tz] (the domain of the theorems)
+   asks for a whole number of seconds; the functions below handle any microsecond offset, as datetime does. *)
 Record dtime := mkdt { yr : N; mo : N; dy : N; hh : N; mi : N; ss : N; us : N; tz : option Z }.
 
 Definition is_leap (y : N) : bool := ((y mod 4 =? 0) && negb (y mod 100 =? 0) || (y mod 400 =? 0))%N.
@@ -234,21 +235,24 @@ Definition days_in_month (y m : N) : N :=
 Definition valid_date (y m d : N) : bool :=
   ((1 <=? y) && (y <=? 9999) && (1 <=? m) && (m <=? 12) && (1 <=? d) && (d <=? days_in_month y m))%N.
 Definition valid_tz (o : option Z) : bool :=
-  match o with None => true | Some z => (-86400 <? z)%Z && (z <? 86400)%Z end.
+  match o with None => true | Some z => (-86400000000 <? z)%Z && (z <? 86400000000)%Z && (z mod 1000000 =? 0)%Z end.
 Definition valid_dt (d : dtime) : bool :=
   valid_date (yr d) (mo d) (dy d) && (hh d <? 24)%N && (mi d <? 60)%N && (ss d <? 60)%N && (us d <? 1000000)%N && valid_tz (tz d).
 
 (* date.isoformat() *)
 Definition format_date (y m d : N) : str :=
   print_fixed 4 y ++ c_minus :: print_fixed 2 m ++ c_minus :: print_fixed 2 d.
-(* datetime._format_offset for whole-second offsets *)
+(* datetime._format_offset: +HH:MM, then :SS when the offset has seconds or microseconds, then .ffffff when it has microseconds *)
 Definition format_offset (o : option Z) : str :=
   match o with
   | None => []
   | Some z =>
     let a := Z.to_N (Z.abs z) in
-    (if (z <? 0)%Z then c_minus else c_plus) :: print_fixed 2 (a / 3600) ++ c_colon :: print_fixed 2 ((a mod 3600) / 60) ++
-    (if (a mod 60 =? 0)%N then [] else c_colon :: print_fixed 2 (a mod 60))
+    let sec := ((a mod 60000000) / 1000000)%N in
+    let u := (a mod 1000000)%N in
+    (if (z <? 0)%Z then c_minus else c_plus) :: print_fixed 2 (a / 3600000000) ++ c_colon :: print_fixed 2 ((a mod 3600000000) / 60000000) ++
+    (if (sec =? 0)%N && (u =? 0)%N then []
+     else c_colon :: print_fixed 2 sec ++ (if (u =? 0)%N then [] else c_dot :: print_fixed 6 u))
   end.
 (* datetime.isoformat() *)
 Definition isoformat (d : dtime) : str :=
@@ -280,14 +284,21 @@ Definition parse_tz (s : str) : option (option Z) :=
         | Some r2 =>
           match read_fixed 2 r2 with
           | Some (m, r3) =>
-            let fin (sec : N) :=
-              let tot := Z.of_N (h * 3600 + m * 60 + sec) in
-              if (m <? 60)%N && (sec <? 60)%N && (tot <? 86400)%Z
+            let fin (sec u : N) :=
+              let tot := Z.of_N ((h * 3600 + m * 60 + sec) * 1000000 + u) in
+              if (m <? 60)%N && (sec <? 60)%N && (tot <? 86400000000)%Z
               then Some (Some (if (c =? c_minus)%N then (- tot)%Z else tot)) else None in
             match r3 with
-            | [] => fin 0%N
+            | [] => fin 0%N 0%N
             | _ => match expect c_colon r3 with
-                   | Some r4 => match read_fixed 2 r4 with Some (sec, []) => fin sec | _ => None end
+                   | Some r4 => match read_fixed 2 r4 with
+                                | Some (sec, []) => fin sec 0%N
+                                | Some (sec, c5 :: r5) =>
+                                    if (c5 =? c_dot)%N then
+                                      let '(f, r6) := read_digits r5 in
+                                      match f, r6 with _ :: _, [] => fin sec (frac6 f) | _, _ => None end
+                                    else None
+                                | None => None end
                    | None => None end
             end
           | None => None end
